@@ -673,8 +673,13 @@ class Renderer(object):  # pylint: disable=too-many-instance-attributes
             if y > y2:
                 break
             self.g("G1 X%s Y%s" % (fmt(self.lx("x", x1 + step * col), 6), fmt(self.lx("y", y), 6)))
-            if codes and n % 9 == 4:
-                self.g(("M117 L%d", "M73 P%d", "M204 S%d", "M205 X%d")[(n // 9) % 4] % (n // 9 + 1))
+            dense = codes and (n % 500) > 470        # (a dense stretch of codes before every 500th move)
+            if codes and (n % 9 == 4 or dense):
+                self.g(("M117 L%d", "M73 P%d", "M204 S%d", "M205 X%d")[(n // 9 + n % 2) % 4] % (n + 1))
+            if codes and n % 7 == 3 and self.p["retract"] == "matched":
+                self.cycle()                          # dozens of retract / recover cycles within one stretch
+            if codes and n % 8 == 6 and self.p["at"]:
+                self.op(("at", "note layer %d" % n, "ExcludeRegion", False))      # distinct @-command lines that match no action
         if not was_abs:
             self.g("G91")
 
